@@ -261,6 +261,13 @@ def check_faults(ctx, index):
                 return "non-numeric"
             return "blank-padded" if attr == " 2" else "non-positive"
 
+        # counts no machine can honour: still a data-format error, not an internal failure
+        for attr in ("1" + "0" * 20, "1" + "0" * 13):
+            storage.write_ods(path, sheets, ("colruns",), cell_repeat_attr=attr)
+            expect_format_error(ctx, {"fault": "column-repeat-count", "value": attr}, path, 1, "column-repeat-count:absurd")
+            xml = storage.ods_content([[["a   b"]]], ("s",))
+            storage.write_ods_raw(path, xml.replace('text:c="2"', 'text:c="%s"' % attr).encode("utf-8"))
+            expect_format_error(ctx, {"fault": "space-count", "value": attr}, path, 1, "space-count:absurd")
         # "1_0", Arabic-Indic and full-width digits are numbers for Python's int() but not for XML Schema's positiveInteger
         for attr in ("0", "-1", "x", "", "1.5", " 2", "1_0", "\u0661\u0660", "\uff11\uff12", "1e1", "0x10"):
             storage.write_ods(path, sheets, ("colruns",), cell_repeat_attr=attr)
